@@ -83,13 +83,20 @@ fn check(c: &StoreCase, rec: &mut CaseRec) -> Verdict {
     let mut stored_any = false;
     // A stored program may have been reached through edits: for some lines an earlier,
     // different definition of the same number is typed first, and an extra DATA line is
-    // added and deleted again, and a READ is typed at the prompt in between. The final stored program is the same.
+    // added and deleted again, a READ is typed at the prompt in between, and an old definition may be listed and deleted before the final one arrives. The final stored program is the same.
     let mut typed: Vec<String> = vec![];
     for (i, l) in c.lines.iter().enumerate() {
         let digits: String = l.trim_start().chars().take_while(|ch| ch.is_ascii_digit()).collect();
         let h = splitmix(c.seed ^ hash_str(l) ^ i as u64);
         if !digits.is_empty() && digits.len() < 19 && h % 2 == 0 {
             typed.push(format!("{} {}", digits, ["DATA \"stale\", 99", "REM stale", "PRINT \"old\" : DATA 1,2", "READ Q : DATA \"s\""][(h / 2 % 4) as usize]));
+            // sometimes the old definition is listed and / or deleted before the final one is typed
+            if (h / 8) % 2 == 0 {
+                typed.push("LIST".to_string());
+            }
+            if (h / 16) % 2 == 0 {
+                typed.push(digits.clone());
+            }
         }
         typed.push(l.clone());
         if h % 3 == 1 {
